@@ -35,6 +35,8 @@ def evValue (ev : Option (List (Nat × Key))) (nodeid : Nat) : Key :=
 /-- The renamed name `problog_cv_<functor>_cb_<k>` of a node below which a cycle was cut. -/
 def cbName : Name → Nat → Name
   | .pos n, k => .pos (n + 1000 * (k + 1))
+  -- a negated name `\+t` has functor `\+`: the renamed name is the positive term `problog_cv_\+_cb_k(t)`
+  | .neg n, k => .pos (n + 500000 + 1000 * (k + 1))
   | nm, _ => nm
 
 structure BC where
